@@ -18,7 +18,6 @@ import sys, os, re
 sys.path.insert(0, os.path.join(os.path.dirname(os.path.abspath(__file__)), "..", "lib"))
 from vlib import *
 from modcorpus import *
-import c02 as C02
 
 INC = os.path.join(HARNESS, "moddrv_c07.inc")
 SYNS = ["der", "uper", "oer", "xer", "cxer"]
@@ -168,9 +167,7 @@ def check_sweep(ctx, m, tn, der, syn, out, model_bytes, label):
         exp = "NONE" if model_bytes == "NONE" else model_bytes
         got = "NONE" if ret < 0 else (data.hex() if data else "-")
         if exp != got and not (exp == "" and got == "-"):
-            if syn == "uper" and ret < 0 and m["name"] != "C07X" and (C02.ref_to_choice(m, tn) or C02.uses_choice_ref(m, dict(m["defs"])[tn])):
-                run.count("c02_choice_ref_no_per(not a C07 matter)")        # recorded under C02; -1 with EBADF is within C07
-            elif label == "valid":
+            if label == "valid":
                 run.violation("correspondence:Rt.%s" % syn, dict(rep, what="C encoder result differs from the model", model=exp, got=got), no_input=(ret < 0 or ret == len(data)))
             elif exp == "NONE":
                 run.violation("correspondence:unencodable(%s)" % syn, dict(rep, what="the model cannot encode this value (None) but the C returned %d" % ret, model=exp, got=got), no_input=True)
